@@ -75,19 +75,25 @@ def apply_op(a, op, dtype, budget_extra=20000):
     de, I = _imports()
     kind = op[0]
     obs = dict(op=list(op), i0=len(a) - 1, t_before=float(a.t[-1]), dt_before=float(a.dt))
-    if kind in ("int", "intT", "intF"):
+    if kind in ("int", "intT", "intF", "intU"):
         if kind == "intF":
             tq = dtype(op[1]) / dtype(op[2])          # a target that is not representable in a lower precision (e.g. 1/3)
+        if kind == "intU":
+            # a target a few units in the last place away from the current time (op[1] ulps, signed)
+            tq = dtype(a.t[-1])
+            for _ in range(abs(int(op[1]))):
+                tq = np.nextafter(tq, dtype(np.inf if op[1] > 0 else -np.inf))
+            tq = dtype(tq)
         target = float(a.tf) if kind == "int" else (float(op[1]) if kind == "intT" else float(tq))
         obs["target"] = target
         obs["target_exact"] = a.tf if kind == "int" else (dtype(op[1]) if kind == "intT" else tq)
         dt_eff = abs(float(a.dt))
-        lim = 8 * driver.min_steps(a.t[-1], target, dt_eff if dt_eff > 0 else 1.0) + budget_extra
+        lim = (8 * driver.min_steps(a.t[-1], target, dt_eff if dt_eff > 0 else 1.0) if kind != "intU" else 0) + budget_extra
         b = driver.Budget(lim)
         try:
             if kind == "int":
                 a.integrate(callback=b)
-            elif kind == "intF":
+            elif kind in ("intF", "intU"):
                 a.integrate(tq, callback=b)
             else:
                 a.integrate(dtype(op[1]), callback=b)
